@@ -17,7 +17,8 @@ import ast
 import inspect
 import sys
 
-from .ty import (Any, Assoc, Bool, Bytes, Dict, Int, NodeTy, NoneT, Opaque, Opt, Rec, SeqOf, Str, TupleOf, Ty)  # noqa: F401
+from .ty import (Any, Assoc, Bool, Bytes, Dict, EnumOf, Int, NodeTy, NoneT, Opaque, Opt, Rec, SeqOf, Str, TupleOf, Ty)  # noqa: F401
+from .ty import ClassOf  # noqa: F401
 
 REGISTRY: dict[str, "Contract"] = {}
 LEMMAS: list["Lemma"] = []
@@ -202,6 +203,13 @@ def use(lemma_fn, *args):
     """Assume the claim of a separately proved @lemma at these arguments (inside a lemma: only lemmas defined
     earlier in the same file, so reasoning cannot be circular). Natively a no-op."""
     return True
+
+
+def is_sorted(xs, key=None):
+    """xs is ordered (non-decreasing) by the integer key -- the predicate the trusted contract of the builtin
+    sorted(xs, key=...) promises for its result (same lambda text => same predicate)."""
+    ks = [x if key is None else key(x) for x in xs]
+    return all(a <= b for a, b in zip(ks, ks[1:]))
 
 
 def mk(ty, **fields):
